@@ -152,6 +152,58 @@ class Smooth(Family):
                       ctx.And(*[ctx.eq(a, b + d) for a, b in zip(list(c2["y"]), ys)]))
 
 
+class ToFunctionAfterHistory(Family):
+    name = "to_function-after-history"
+    doc = "after (optionally a reshaping operation and) any domain operation, to_function() fits the CURRENT series"
+    differential = False
+    query_timeout_ms = 30000
+
+    def configs(self, tier):
+        from checks.weaverfam import domain_ops
+        pres = (None, "smooth", "recreate:LinearFixedRFA", "trend")
+        out = []
+        for pre in pres:
+            for d in domain_ops("quick"):
+                if d["op"] == "normalize_y" and pre is not None:
+                    continue          # min/max over reshaped values: orderings multiply, nothing new for this claim
+                out.append({"L": 5, "pre": pre, "d": d})
+        return out
+
+    def run(self, ctx, inst, L, pre, d):
+        import warnings
+        from traffic_weaver import Weaver
+        from checks.weaverfam import apply_domain, apply_reshape
+        xs, ys = ctx.reals("x", L), ctx.reals("y", L)
+        increasing(ctx, xs)
+        w = Weaver(arr(ctx, xs), arr(ctx, ys))
+        with spline_calls(ctx, inst) as (calls_of, evals_of), warnings.catch_warnings():
+            warnings.simplefilter("error", RuntimeWarning)
+            try:
+                if pre is not None:
+                    apply_reshape(ctx, w, pre, tag="pre_")
+                apply_domain(ctx, w, d, tag="d_")
+                if len(w.x) < 5:
+                    return            # the property speaks of series of >= 5 points (a cubic spline needs > 3)
+                n0 = len(calls_of())
+                f = w.to_function()
+                cx_, cy_ = w.get()
+                info = {"pre": pre, "op": d["op"]}
+                calls = calls_of()
+                # (whether a new fit is made is an implementation matter - a correctly invalidated cache would be
+                #  fine; what is claimed is what the returned function does)
+                if len(calls) == n0 + 1:
+                    c = calls[-1]
+                    okx = len(c["x"]) == len(cx_) and ctx.And(*[ctx.eq(a, b) for a, b in zip(list(c["x"]), list(cx_))])
+                    oky = len(c["y"]) == len(cy_) and ctx.And(*[ctx.eq(a, b) for a, b in zip(list(c["y"]), list(cy_))])
+                    ctx.claim("splrep-receives-current-(x,y)", ctx.And(okx, oky), info)
+                vals = f(cx_)
+                for i in range(len(cx_)):
+                    ctx.claim("to_function-passes-through-current-samples(contract)",
+                              ctx.le((vals[i] - cy_[i]) * (vals[i] - cy_[i]), 0 if ctx.symbolic else 1e-12 * (1 + abs(float(cy_[i])) ** 2)), dict(info, i=i))
+            except RuntimeWarning:
+                return
+
+
 META = {
     "explanation": "process.spline_smooth, Weaver.smooth and Weaver.to_function executed on symbolic series with "
                    "splrep/BSpline replaced by a recording contract stub: the claims decide exactly what "
@@ -173,4 +225,4 @@ if __name__ == "__main__":
     ap = argparse.ArgumentParser()
     ap.add_argument("--tier", default="quick")
     a = ap.parse_args()
-    sys.exit(run_check("C16", "smoothing", [Smooth()], a.tier, META))
+    sys.exit(run_check("C16", "smoothing", [Smooth(), ToFunctionAfterHistory()], a.tier, META))
